@@ -1,3 +1,3 @@
 SPECIFICATION Spec
-INVARIANTS RevokedNeverValid ForeignIgnored GoodKeeps BatchIrrelevant
+INVARIANTS RevokedNeverValid ForeignIgnored GoodKeeps BatchIrrelevant ChainIrrelevant
 CHECK_DEADLOCK FALSE
